@@ -104,6 +104,22 @@ fn main() {
                 std::process::exit(1);
             }
         }
+        "custom" => {
+            // compile_fs custom <dir> <schema file> <literals file>: exit 0 iff the project compiles
+            let schema = fs::read_to_string(std::env::args().nth(3).expect("schema")).unwrap();
+            let lits = fs::read_to_string(std::env::args().nth(4).expect("literals")).unwrap();
+            setup(&root, &lits);
+            fs::write(root.join("schema.graphql"), schema).unwrap();
+            let config = create_config(&root.join("isograph.config.json"), cwd);
+            let mut state = CompilerState::<P>::new(config, cwd).map_err(|e| e.0).expect("state");
+            match compile::<P>(&mut state) {
+                Ok(_) => println!("compile ok"),
+                Err(e) => {
+                    for d in &e { println!("diagnostic: {}", d.0.message); }
+                    std::process::exit(1);
+                }
+            }
+        }
         _ => { eprintln!("usage: compile_fs root_only|interrupted [dir]"); std::process::exit(2); }
     }
 }
